@@ -187,7 +187,10 @@ struct EvLog {
   }
   void evs(const char* tag, const std::string& s) { ev(tag, hash_str(s), s.size()); }
 };
-extern EvLog g_log;
+int sched_cur();
+extern EvLog g_logs[];          // one per simulated task (0 = main); tasks never share a log
+#define g_log (g_logs[sched_cur()])
+extern bool g_task_mode;         // workload bodies run as tasks of a W4 plan (no allocator reset, per-task leak checks)
 
 // ---------------------------------------------------------------- violations
 // First violation of a run wins. `cls` names property + oracle clause; it is what
